@@ -435,6 +435,7 @@ InvalidLeafDominates == \A k \in 1..Len(vec) :
 AllMidCornerAccepted == vec = <<<<0, 3>>>> => out.verdict = "ACCEPT"
 CornersAreDefinite == IsCorner(vec) => out.verdict # "UNSPEC"
 \* the table is well formed: bounds ordered, valid corner values inside the bounds, default inside the bounds
+\* (constant-level: checked once as an assumption)
 TableWellFormed ==
   \A i \in 1..NF : LET f == FT[i] IN
      /\ f.sec \in 1..NS
@@ -445,9 +446,12 @@ TableWellFormed ==
           /\ (f.hd = 1 /\ f.hl = 1 => (IF f.lx = 1 THEN f.d > f.lv ELSE f.d >= f.lv))
           /\ (f.hd = 1 /\ f.hh = 1 => f.d <= f.hv)
 
+ASSUME TableWellFormed
+
 EmitCase == PrintT(<<"T", ToJson([v |-> vec, verdict |-> out.verdict, faults |-> out.faults,
                                   unspec |-> out.unspec, rules |-> out.rules, runk |-> out.rules_unknown,
                                   cls |-> IF IsCorner(vec) THEN [i \in 1..NF |-> CornerClass(vec[1][2], i)] ELSE <<>>])>>)
-\* one-off print of the frozen table (the harness compares it with its mirror)
+\* print of the frozen table (TLC evaluates this constant once at start-up; the harness compares the printed
+\* table column by column with its mirror and refuses to run on any difference)
 EmitTable == PrintT(<<"T", ToJson([table |-> FT, sections |-> ST])>>)
 =============================================================================
